@@ -62,15 +62,19 @@ Lemma spec_step_complete g sp e : 0 <= sg_mpl g -> spec_complete sp -> spec_comp
 Proof. intros Hm [H1 H2]. unfold spec_complete, messages in *.
   assert (Hpad : forall s, messages_from None (pad_to_term_end g s) = [] /\ mstate None (pad_to_term_end g s) = None).
   { intros s. unfold pad_to_term_end. destruct (_ =? 0); split; reflexivity. }
-  destruct e as [m r|len r|body| |msgs|]; cbn [spec_step].
+  assert (Hrep : forall s q, messages_from None (pad_to_reported g s q) = [] /\ mstate None (pad_to_reported g s q) = None).
+  { intros s q. unfold pad_to_reported. destruct q as [p| | | |]; try (split; reflexivity). destruct (_ <? _); split; reflexivity. }
+  destruct e as [m r q|len r q|body| |msgs|]; cbn [spec_step].
   - destruct r as [p|e| | |]; cbn [on_result]; auto.
     + cbn [sp_stream sp_acc]. destruct (msg_items_messages (sg_mpl g) m Hm) as [I1 I2].
       rewrite messages_from_app, mstate_app, H2, I1, I2, H1, map_app. split; reflexivity.
-    + destruct e; auto. cbn [sp_stream sp_acc]. destruct (Hpad (sp_stream sp)) as [I1 I2].
-      rewrite messages_from_app, mstate_app, H2, I1, I2, app_nil_r. auto.
+    + destruct e; auto; cbn [sp_stream sp_acc].
+      * destruct (Hpad (sp_stream sp)) as [I1 I2]. rewrite messages_from_app, mstate_app, H2, I1, I2, app_nil_r. auto.
+      * destruct (Hrep (sp_stream sp) q) as [I1 I2]. rewrite messages_from_app, mstate_app, H2, I1, I2, app_nil_r. auto.
   - destruct r as [p|e| | |]; cbn [on_result]; auto.
-    destruct e; auto. cbn [sp_stream sp_acc]. destruct (Hpad (sp_stream sp)) as [I1 I2].
-    rewrite messages_from_app, mstate_app, H2, I1, I2, app_nil_r. auto.
+    destruct e; auto; cbn [sp_stream sp_acc].
+    + destruct (Hpad (sp_stream sp)) as [I1 I2]. rewrite messages_from_app, mstate_app, H2, I1, I2, app_nil_r. auto.
+    + destruct (Hrep (sp_stream sp) q) as [I1 I2]. rewrite messages_from_app, mstate_app, H2, I1, I2, app_nil_r. auto.
   - destruct (sp_open sp) as [[len p]|]; auto. cbn [sp_stream sp_acc].
     rewrite messages_from_app, mstate_app, H2, H1, map_app. cbn [messages_from mstate]. change (F_UNFRAG =? F_UNFRAG) with true.
     split; reflexivity.
